@@ -222,20 +222,23 @@ class VLoop(asyncio.SelectorEventLoop):
         self.decisions += 1
         if self.chooser is not None:
             return self.chooser(self, jobs, busy)
-        overdue = [j for j in jobs if j.waited >= (2000 if j.longpark else self.max_park)]
+        def lp(j):
+            # a long-parked job is held only where its work is done but its result not yet delivered ("job-end")
+            return j.longpark is True or (j.longpark == 'job-end' and j.label == 'job-end')
+        overdue = [j for j in jobs if j.waited >= (2000 if lp(j) else self.max_park)]
         if overdue:
             return overdue[0]
         pol = self.policy
         if pol == 'eager':
             return jobs[0]
         if not busy:
-            cands = [j for j in jobs if not j.longpark]
+            cands = [j for j in jobs if not lp(j)]
             return self.rng.choice(cands) if cands else None
         if pol == 'lazy':
             return None
         if pol == 'random':
             if self.rng.random() < self.p:
-                cands = [j for j in jobs if not j.longpark] or None
+                cands = [j for j in jobs if not lp(j)] or None
                 return self.rng.choice(cands) if cands else None
             return None
         if pol == 'pct':
